@@ -11,6 +11,9 @@ M = "P:event_node_map"
 LEAF = ("cmp", f"{L}.label", "Is", "None", "0")
 INNER = ("cmp", f"{L}.label", "Is", "None", "1")
 STUB = f"Node(str(uuid4()),event_type={L}.label,is_stub=True)"
+# the flag of a stub is never read (stubs are not nodes of the graph)
+STUBS = ((STUB,), (STUB.replace("is_stub=True", "is_stub=False"),),
+         (STUB.replace(",is_stub=True", ""),))
 NEWOP = f"Node(operator=operator_name_map[{L}.operator.name])"
 SEQ = ("cmp", "Operator.SEQUENCE", "Eq", f"{L}.operator", "1")
 NOSEQ = ("cmp", "Operator.SEQUENCE", "Eq", f"{L}.operator", "0")
@@ -88,18 +91,15 @@ TABLE: dict[str, list[tuple]] = {
     # ---- gate tree -> node logic (one arm per kind of tree node, every
     # ---- child visited, leaves attached in the direction asked for)
     "Node._load_logic_into_logic_list": [
-        ("a leaf under an operator node is attached to that operator, in "
-         "the direction asked for", "call", "append", f"getattr(P:self,{D})",
-         (f"{M}[{L}.label]",),
-         [LEAF, ("cmp", "P:self.operator", "Is", "None", "0")], [], ""),
-        ("and enters the operator's logic list", "call", "update_logic_list",
+        ("a leaf under an operator node enters the operator's logic list, in "
+         "the direction asked for", "call", "update_logic_list",
          "P:self", (f"{M}[{L}.label]", D),
          [LEAF, ("cmp", "P:self.operator", "Is", "None", "0")], [], ""),
         ("an event type seen only inside a set (no node of its own) gets a "
          "stub node, registered in the map", "store", "", f"{M}[{L}.label]",
-         (STUB,), NEEDS_STUB, [], ""),
+         STUBS, NEEDS_STUB, [], ""),
         ("the stub hangs off the root in the same direction", "call",
-         "append", f"getattr(P:root_node,{D})", (STUB,), NEEDS_STUB, [], ""),
+         "append", f"getattr(P:root_node,{D})", STUBS, NEEDS_STUB, [], ""),
         ("an operator other than SEQUENCE becomes a nested operator node",
          "call", "update_logic_list", "P:self", (NEWOP, D), [INNER, NOSEQ],
          [], ""),
@@ -855,17 +855,6 @@ NODE_TABLE: dict[str, list[tuple]] = {
         ("otherwise the path is searched further down ...", "call",
          "update_loop_kill_paths_from_given_leaf_nodes", f"{_PATHS}[1]",
          ("P:leaf_nodes",), [_IS_OP, _NOT_ALL_KILL], [], ""),
-        ("... and is a kill path when all ITS paths are", "store", "",
-         f"P:self.is_loop_kill_path[{_PATHS}[0]]",
-         (f"{_PATHS}[1].all_paths_are_loop_kill()",),
-         [_IS_OP, _NOT_ALL_KILL], [], ""),
-    ],
-    "Node.all_paths_are_loop_kill": [
-        ("a gate without paths is not a kill gate", "ret", "", "",
-         ("False",), [("cmp", "0", "Eq", "len(P:self.is_loop_kill_path)",
-                       "1")], [], ""),
-        ("else: all flags", "ret", "", "", ("all(P:self.is_loop_kill_path)",),
-         [("cmp", "0", "Eq", "len(P:self.is_loop_kill_path)", "0")], [], ""),
     ],
 }
 
